@@ -20,7 +20,11 @@ THEOREMS = [P + t for t in (
     "inv_empty", "invS_iff", "links_only_interfaces", "inv_op", "invD_op", "inv_history_partial", "invD_history_partial",
     "inv_history_from_empty", "invD_history_from_empty", "inv_setProps", "inv_unsetProp", "inv_addNode",
     "rename_names_counterexample", "nsAddInterface_names_counterexample", "nsAddInterface_sp_counterexample",
-    "addLink_sp_counterexample", "connect_names_counterexample")]
+    "addLink_sp_counterexample", "connect_names_counterexample")] + ["FimVerif.Topo." + t for t in (
+    "invS_ext", "invD_ext", "invD_dropNode", "invS_mapNodes", "namesOk_mapNodes", "invS_addNode", "invS_nsAddInterface", "invS_addLink",
+    "invS_connect", "invS_addComponent", "invS_addStorage", "invS_addService", "invS_nodeAddService", "invD_addService",
+    "invD_nodeAddService", "invD_addComponent", "svcLoop_ok", "svcLoop_invD", "catalog_ok", "invS_addFacility", "invS_addSwitch",
+    "invD_addFacility", "invD_addSwitch", "addFacility_shape", "addSwitch_shape")]
 TRUSTED_BASE = [
     "Model/Topo.lean (hand-mirrored topology API, see C09) - checked differentially call by call, including the four name views",
     "Topo.Inv (Proofs/Lemmas/TopoInv.lean) is the reading of the statement's conjuncts on the model state; edges are read container-first "
@@ -34,13 +38,15 @@ TRUSTED_BASE = [
 ASSUMPTIONS = [
     "NetworkX backend, single thread, ASCII names; uuid4 freshness (guard FreshTwo in CoveredS/CoveredD)",
     "the two cardinality rules (L2PTP/L2Path connect two, PortMirror connects one) constrain finished slices (C10) and are not demanded after every call",
-    "PARTIAL: InvS (= Inv without the six name scopes) is proved for every history of add_node, add_component, add_storage, NetworkService.add_interface, add_link, "
-    "connect_interface, set/unset property, rename under the decidable guards of CoveredS (argument types from the API enums, handles "
-    "refer to elements of their class, fresh uuids, derived link name valid when the port name is, no ServicePort handed to "
-    "add_link/connect, add_interface not used to create a ServicePort); InvD ('at most one' owner/parent/peer instead of 'exactly one') "
-    "additionally for every removing call, disconnect_interface, remove_interface, in any state and for any outcome",
-    "NOT covered by inv_op (oracle + correspondence only): add_network_service (topology and node), "
-    "add_facility, add_switch; 'exactly one' after removals (subject of C08); the name scopes, except for add_node and set/unset property (inv_addNode, inv_setProps, inv_unsetProp keep the full Inv)",
+    "PARTIAL: (1) the downward-closed invariant InvD (ids distinct, no dangling edge, vocabularies, containment structure, AT MOST one "
+    "owner / parent / peer) is proved for every history over ALL 23 building calls of the model, any state, any outcome, under the "
+    "decidable guard CoveredD (argument types from the API enums, handles refer to elements of their class, fresh uuids, no ServicePort "
+    "handed to add_link/connect); (2) InvS (EXACTLY one owner / parent / peer) is proved for every history of the creating and property "
+    "calls under CoveredS (additionally: add_interface not used to create a ServicePort; a service constructor or composite that raises "
+    "after its rollback ran left the model unchanged - C09 proves that for at most one interface); (3) the full Inv with the six name "
+    "scopes only for add_node, set/unset property",
+    "NOT proved (oracle + correspondence only): 'exactly one' after removing calls / disconnect / remove_interface (C08's subject); the "
+    "name scopes for the other calls (several are broken by the code: known findings with _counterexample theorems)",
     "building calls not in the model: peer/unpeer, add_child_interface/remove_child_interface, add_port_mirror_service, prune",
 ]
 RULE = ("call histories over both flavours (caller-supplied and generated ids), mostly valid calls with 15% rejected ones; after every call "
@@ -345,14 +351,14 @@ def correspondence(ctx, res):
     hs = []
     for name, fl, ops in corpus_cases() + deterministic_cases():
         hs.append(c09.run_history(fl, scripted(ops)))
-    n = ctx.scale(50, 500)
+    n = ctx.scale(24, 160)
     for i in range(n):
         fl = "exp" if i % 4 else "sub"
         hs.append(c09.random_history(ctx, "c07corr/%d" % i, fl, ctx.scale(25, 40), 0.15))
     c09.compare_with_model(hs, res)
     # the views as pure functions of the state, and the verdict of every conjunct of Topo.Inv on every state of the run:
     # the model's (Lean predicate on the model state) against the oracle's (published rules on the implementation's graph)
-    hsel = hs[: ctx.scale(45, 250)]
+    hsel = hs[: ctx.scale(45, 200)]
     for lo in range(0, len(hsel), 60):
         lines, want = [], []
         for h in hsel[lo:lo + 60]:
@@ -361,6 +367,8 @@ def correspondence(ctx, res):
             lines.append(json.dumps({"op": "reset"}))
             want.append(None)
             for i, st in enumerate(h):
+                lines.append(json.dumps({"op": "covered", "call": st["line"]}, sort_keys=True))
+                want.append(("covered", st["op"]["op"], None))
                 lines.append(T.lean_line(st["line"]))
                 want.append(None)
                 lines.append(json.dumps({"op": "inv"}))
@@ -369,11 +377,18 @@ def correspondence(ctx, res):
             ev = expected_views(h[-1]["after"])
             want.append(("views", {k: ev[k] for k in ("nodes", "facilities", "links", "services")}, None))
         rep = LeanDriver("C07").run(lines)
+        pending = None
         for w, r in zip(want, rep):
             if w is None:
                 continue
             res.evaluations += 1
             j = json.loads(r)
+            if w[0] == "covered":
+                # the guards of the history theorems, evaluated by the driver in the state before the call
+                pending = (w[1], j[1])
+                for k in ("coveredS", "coveredD"):
+                    res.count("%s:%s:%s" % (k, "yes" if j[1][k] else "no", w[1]))
+                continue
             if w[0] == "views":
                 res.count("op:views")
                 got = {k: sorted(v) for k, v in j[1].items()}
@@ -384,6 +399,16 @@ def correspondence(ctx, res):
                 got = {k: j[1][k] for k in w[1]}
                 if j[1]["closed"] is not True:
                     got["closed"] = False
+                if pending is not None:
+                    # an instance of inv_op / invD_op on the executable model: guard and invariant before => invariant after
+                    opk, pre = pending
+                    for cov, inv in (("coveredS", "invS"), ("coveredD", "invD")):
+                        if pre[cov] and pre[inv]:
+                            res.count("theorem-instance:" + inv)
+                            if not j[1][inv]:
+                                res.disagreements.append({"case": dict(w[2], what="%s held and %s covered the call, but %s fails after it" % (inv, cov, inv)),
+                                                          "impl": None, "model": j[1]})
+                    pending = None
                 for k in w[1]:
                     if not w[1][k]:
                         res.count("inv-false:" + k)
@@ -402,7 +427,7 @@ def oracle(ctx, res, budget=None):
         run_and_check(fl, ops, res, "corpus:" + name, views_every=1)
     for name, fl, ops in deterministic_cases():
         run_and_check(fl, ops, res, name, views_every=1)
-    n = budget or ctx.scale(70, 800)
+    n = budget or ctx.scale(30, 300)
     for i in range(n):
         fl = "exp" if i % 4 else "sub"
         rng = ctx.sub_rng("c07oracle/%d" % i)
